@@ -1,0 +1,153 @@
+//go:build verif
+
+package verifsync
+
+import (
+	"sync"
+)
+
+// Aliases for types whose behaviour does not need to be controlled.
+type (
+	Locker    = sync.Locker
+	Once      = sync.Once
+	WaitGroup = sync.WaitGroup
+	Map       = sync.Map
+	Pool      = sync.Pool
+)
+
+// Kind of lock operation that is about to be performed.
+type Kind int
+
+const (
+	// KindLock corresponds to Mutex.Lock() and RWMutex.Lock().
+	KindLock Kind = iota
+	// KindTryLock corresponds to Mutex.TryLock() and RWMutex.TryLock().
+	KindTryLock
+	// KindRLock corresponds to RWMutex.RLock().
+	KindRLock
+	// KindTryRLock corresponds to RWMutex.TryRLock().
+	KindTryRLock
+)
+
+// Hooks that are invoked around lock operations.
+type Hooks interface {
+	// Before is called prior to attempting to acquire a lock. It
+	// may block the calling goroutine until the scheduler permits
+	// it to continue.
+	Before(m any, kind Kind)
+	// After is called after the lock operation completed. For
+	// try-lock operations ok indicates whether it succeeded.
+	After(m any, kind Kind, ok bool)
+	// Release is called right before a lock is released.
+	Release(m any, kind Kind)
+}
+
+// H holds the currently installed hooks. It must only be changed while
+// no goroutine is performing lock operations.
+var H Hooks
+
+// Mutex is a replacement for sync.Mutex.
+type Mutex struct{ mu sync.Mutex }
+
+// Lock the mutex.
+func (m *Mutex) Lock() {
+	if h := H; h != nil {
+		h.Before(m, KindLock)
+		m.mu.Lock()
+		h.After(m, KindLock, true)
+		return
+	}
+	m.mu.Lock()
+}
+
+// TryLock attempts to lock the mutex without blocking.
+func (m *Mutex) TryLock() bool {
+	if h := H; h != nil {
+		h.Before(m, KindTryLock)
+		ok := m.mu.TryLock()
+		h.After(m, KindTryLock, ok)
+		return ok
+	}
+	return m.mu.TryLock()
+}
+
+// Unlock the mutex.
+func (m *Mutex) Unlock() {
+	if h := H; h != nil {
+		h.Release(m, KindLock)
+	}
+	m.mu.Unlock()
+}
+
+// RWMutex is a replacement for sync.RWMutex.
+type RWMutex struct{ mu sync.RWMutex }
+
+// Lock the mutex for writing.
+func (m *RWMutex) Lock() {
+	if h := H; h != nil {
+		h.Before(m, KindLock)
+		m.mu.Lock()
+		h.After(m, KindLock, true)
+		return
+	}
+	m.mu.Lock()
+}
+
+// TryLock attempts to lock the mutex for writing without blocking.
+func (m *RWMutex) TryLock() bool {
+	if h := H; h != nil {
+		h.Before(m, KindTryLock)
+		ok := m.mu.TryLock()
+		h.After(m, KindTryLock, ok)
+		return ok
+	}
+	return m.mu.TryLock()
+}
+
+// Unlock the mutex for writing.
+func (m *RWMutex) Unlock() {
+	if h := H; h != nil {
+		h.Release(m, KindLock)
+	}
+	m.mu.Unlock()
+}
+
+// RLock locks the mutex for reading.
+func (m *RWMutex) RLock() {
+	if h := H; h != nil {
+		h.Before(m, KindRLock)
+		m.mu.RLock()
+		h.After(m, KindRLock, true)
+		return
+	}
+	m.mu.RLock()
+}
+
+// TryRLock attempts to lock the mutex for reading without blocking.
+func (m *RWMutex) TryRLock() bool {
+	if h := H; h != nil {
+		h.Before(m, KindTryRLock)
+		ok := m.mu.TryRLock()
+		h.After(m, KindTryRLock, ok)
+		return ok
+	}
+	return m.mu.TryRLock()
+}
+
+// RUnlock unlocks the mutex for reading.
+func (m *RWMutex) RUnlock() {
+	if h := H; h != nil {
+		h.Release(m, KindRLock)
+	}
+	m.mu.RUnlock()
+}
+
+// RLocker returns a Locker that uses RLock() and RUnlock().
+func (m *RWMutex) RLocker() Locker {
+	return (*rlocker)(m)
+}
+
+type rlocker RWMutex
+
+func (r *rlocker) Lock()   { (*RWMutex)(r).RLock() }
+func (r *rlocker) Unlock() { (*RWMutex)(r).RUnlock() }
